@@ -22,6 +22,7 @@ import Proofs.SrcBlind
 import Proofs.Compose
 import Proofs.Peaks
 import Proofs.SeededTotal
+import Proofs.SeedingGlue
 import Proofs.SecondPass
 import Proofs.Total
 namespace Coma.Props
@@ -159,6 +160,16 @@ theorem C07_seeded_run_total (cfg : Cfg) (c : SecCfg) (mode : Mode) (hP : GoodPa
     (hpt : Coma.Proofs.PTableOK c refs qs pt) :
     ∃ d out, deriveTable c refs qs pt = .ok d ∧ execute cfg mode refs d.table qs it = .ok out :=
   Coma.Proofs.seeded_execute_total cfg c mode hP refs qs pt it hres hb hrefs hqs hids hrid hpt
+
+/-- the hypothesis of `C07_seeded_run_total` holds for every peak the primary stage can select: a primary peak is the
+    centre of an INTERIOR lag `k` of the primary correlation (scipy's `find_peaks` never returns the first or the last
+    sample), the reference vector ends with the bin of the last reference label, so the refinement window (which starts
+    `margin ≥ 0` before the peak) always reaches a reference label — at every primary resolution and blur -/
+theorem C07_primary_peak_window (res1 blur1 margin : Int) (ref : OMap) (rv : List Nat) (k : Nat)
+    (hres : 1 ≤ res1) (hm : 0 ≤ margin) (hasc : Ascending ref.positions) (hnn : ∀ p ∈ ref.positions, 0 ≤ p)
+    (hv : sequenceOf res1 blur1 ref.positions 0 none = .ok rv) (hk : k + 1 < rv.length) :
+    ∃ p ∈ ref.positions, toBp (k : Int) res1 0 - margin ≤ p :=
+  Coma.Proofs.primary_peak_window_ok res1 blur1 margin ref rv k hres hm hasc hnn hv hk
 
 /-- non-vacuity / the error branch: a window that starts after the last reference label -/
 example : refine {} { id := 1, length := 50000, positions := [1000, 9000] } { id := 2, length := 701, positions := [0, 700] } false 30000
